@@ -165,6 +165,25 @@ CHECKS = [
      "float floors are judged with floorOK(eps=1e-9) and compared exactly only away from integers; the validity clause is skipped "
      "when a joint probability is within 1e-12 of 0 (there float rounding decides: e.g. p1=p2=0.2, rho=1 raises).",
      "Lean 4 proof about a hand-written model + differential correspondence check", "DESIGN.md §5 C20"),
+ chk("C10",
+     "Lean: queries as a state machine over the model (SA/Model/History.lean: step/runHistory, vectorised cmV/rateV/"
+     "thresholdAtV/pointwiseV as shape + flat list + map). C10_pure (state after ANY history = state before), C10_repeat / "
+     "C10_output_at / C10_repeat_across (same question, aliases resolved, anywhere in any history -> same output), "
+     "C10_elementwise_cm/_rate/_threshold + C10_shape_cm + C10_threshold_error (element i = scalar call on element i, shapes "
+     "X and X++[2,2], row-major cells, error iff scalar error), C10_pointwise_shape/_elementwise (A++X++[2,2]), C10_alias. "
+     "These are true BY CONSTRUCTION of a pure model and the file says so; the content of C10 is the correspondence run on "
+     "histories: one real Scores object per case (ndarray/list/from_labels, is_sorted=True aliasing caller arrays, read-only, "
+     "int/float) and 5-30 (thorough 30-100) random public calls with arguments of shapes () ... (2,1,2), (0,), (2,0), (0,3) as "
+     "ndarray (C/strided/Fortran/read-only), list, Python/NumPy scalar, 0-d array; after EVERY call byte-for-byte snapshots "
+     "(bytes, dtype, shape, strides, flags, address, shares_memory) of pos/neg/easy counts/flags and of every caller array, "
+     "result shape, scalar type, elementwise equality with scalar calls, alias equality, identical bytes on immediate and "
+     "end-of-history repetition, first result untouched by the repetition; scalar results are compared with the model's "
+     "runHistory and the Lean predicates repeatFlags / shape predicates are evaluated on the implementation's observations.",
+     BASE_NOTE + "No-mutation, scalar-type and identical-bytes clauses are decided on sampled histories only (a pure model "
+     "cannot exhibit NumPy aliasing or in-place writes); eer/auc/roc/threshold_at_metric/bootstrap_* (identity sampler)/"
+     "pointwise_cm/ConfusionMatrix metrics are outside the model's Query type and checked on the Python side only; one open "
+     "finding (bootstrap_ci 'quantile' with an empty 1-d metric raises AxisError) is listed in known_findings.json.",
+     "Lean 4 proof about a hand-written model + differential correspondence check on call histories", "DESIGN.md §5 C10"),
 ]
 
 ALL = [f"C{i:02d}" for i in range(1, 21)]
